@@ -233,7 +233,7 @@ PROPS = {
         'level_text': 'Full proof (over R) for every configuration with kt_start = 0, every (history-dependent) score function and every accept/reject history with non-negative thresholds: the temperature stays 0, an accepted score is never below the current one, the tracked score is non-decreasing along the run and the result is at least the input; for parameter-only scores the score of the returned state is at least that of the input. About the executable optimiser model, which reproduces whole optimise_state runs bit-for-bit from the seed.',
         'level_note': 'Trusted: Lean kernel + 3 axioms; optimiser model tied by bit-exact opt/optc families (scripted recording State and real crystal states, PCG port); real numbers have no NaN/inf: the IEEE behaviour at kt in {+0,-0,NaN} is covered by the guard `!(kt > 0)` being the first test (modelled literally) and by the carrier-generic NaN theorem in C07.',
         'technique': 'Lean 4 induction over optimiser runs (invariant) + source-to-Lean translation of the function bodies with tie theorems + bit-exact differential correspondence of whole runs',
-        'theorems': ['Proofs.C05', 'Proofs.TieAccept', 'Proofs.TieBuild', 'Proofs.TieLoopTail'],
+        'theorems': ['Proofs.C05', 'Proofs.TieAccept', 'Proofs.TieBuild', 'Proofs.TieLoopTail', 'Proofs.TieInnerStep'],
         'families': [('opt', 1500, 30000)],
         'search': (10, 240),
         'rule': 'opt: scripted recording states (explicit outcome lists with ties/invalids, quadratic bowls with forbidden zones) x configuration grid (kt_start 0/positive, kt_finish, kt_ratio incl. >1, steps/inner incl. 0, non-multiples, inner>steps, convergence); optc: real hard/LJ crystal states, 7 groups; non-trivial = run with >= 5 score calls; distinct by request text; search: history monitors on the real optimiser with kt_start = 0',
@@ -244,7 +244,7 @@ PROPS = {
         'level_text': 'Full proof for an ARBITRARY carrier (no algebraic law used, so it holds verbatim at f64, bit for bit): after every step the heap is exactly the proposal (accepted) or exactly the heap before it (rejected); a proposal differs from its parent in at most one cell; events chain; the returned heap is the last accepted proposal (the input if none), also on the convergence exit; the tracked score is that proposal\'s score; for parameter-only scores it is the score of the returned state.',
         'level_note': 'Trusted: Lean kernel + propext/Quot.sound; heap model of SharedValue/StandardBasis tied by the bit-exact basis family (set/reset/sample sequences incl. shared cells) and whole-run opt/optc families.',
         'technique': 'Lean 4 induction over optimiser runs for an arbitrary scalar carrier + source-to-Lean translation of the function bodies with tie theorems + bit-exact differential correspondence',
-        'theorems': ['Proofs.C06', 'Proofs.TieBasis'],
+        'theorems': ['Proofs.C06', 'Proofs.TieBasis', 'Proofs.TieInnerStep'],
         'families': [('basis', 1500, 40000), ('opt', 1500, 30000)],
         'search': (10, 240),
         'rule': 'basis: random set/reset/get/sample/setsampled sequences on up to 5 handles over up to 4 cells (shared cells included); opt/optc as for C05; non-trivial = run with >= 5 score calls / any basis sequence; search: exact-restore, single-parameter and result-is-last-accepted monitors on recorded real histories',
@@ -339,7 +339,7 @@ PROPS = {
         'level_text': 'Full proof over R: a sample is within step*range/2 of the value, clamping never moves further from an in-range value, the adaptive ratio stays in (0,1] for every rejection history, hence every proposal of every loop changes exactly one cell by at most max_step_size*(max-min)/2.',
         'level_note': 'Trusted: Lean kernel + 3 axioms; draw in [-1/2,1/2) (rand gen_range, pinned by rng family).',
         'technique': 'Lean 4 invariant proof over runs + source-to-Lean translation of the function bodies with tie theorems + bit-exact differential correspondence',
-        'theorems': ['Proofs.C19', 'Proofs.C07Draw', 'Proofs.TieBasis', 'Proofs.DeclBasis', 'Proofs.TieLoopTail'],
+        'theorems': ['Proofs.C19', 'Proofs.C07Draw', 'Proofs.TieBasis', 'Proofs.DeclBasis', 'Proofs.TieLoopTail', 'Proofs.TieInnerStep'],
         'families': [('basis', 1000, 20000), ('opt', 1500, 30000), ('rng', 300, 6000)],
         'search': (10, 240),
         'rule': 'opt as for C05 with multi-loop configurations and all rejection rates; search: per-proposal step-bound monitor on recorded real histories',
